@@ -9,12 +9,14 @@
     [bitmap.Join/split] [bm; w]      -> Join([Getw(bm, i, w) for i < 64*len(bm)/w], w); must be bm again
     [bitmap.Slice/ToArray] [ws; from; to] -> ToArray(Slice(ws, from, to))
     [bitmap.Slice/Slice] [ws; a; b; c; d] -> Slice(Slice(ws, a, b), c, d); must be the slice [a+c, a+d) of ws
+    [bitmap.Slice/Rank64] [ws; a; b; trailing; j] -> Rank64(r, IndexRank64(r, trailing), j) with r = Slice(ws, a, b): [count, bit]
+    [bitmap.Slice/NextOne] [ws; a; b; j] -> NextOne(r, j, b-a);  [bitmap.Slice/PrevOne] likewise
     [bitmap.Fmt] [kind; is_slice; vals] -> the string Fmt returns (byte list), P = panic; kind 0..7 = int8, uint8,
                                            int16, uint16, int32, uint32, int64, uint64, 8 = string (not an integer) *)
 From Coq Require Import ZArith List Bool String.
 From Low Require Import Lib.Bits Lib.BitSeq Lib.Val Model.BitmapJoin Spec.JoinSpec
   Model.BitmapMask Spec.MaskSpec Model.BitmapGetw32 Spec.GetwSpec
-  Model.BitmapSliceArray Spec.SliceArraySpec Model.BitmapFmt Spec.FmtSpec.
+  Model.BitmapSliceArray Spec.SliceArraySpec Model.BitmapFmt Spec.FmtSpec Spec.SliceComposeSpec.
 Import ListNotations.
 Open Scope string_scope.
 Open Scope Z_scope.
@@ -127,6 +129,47 @@ Definition ops_C14 : list opdef := [
            | Some ws, Some r => spec_Slice_ok ws (a + c) (a + d) r
            | _, _ => false end
        | _ => false end |};
+  {| op_name := "bitmap.Slice/Rank64";
+     op_run := fun a => match a with
+       | [ws; VZ a; VZ b; VZ tr; VZ j] => match as_zs ws with
+           | Some ws =>
+               if words_okb ws && slice_dom ws a b && (0 <=? j) && (j <? b - a)
+               then match SliceRank64 ws a b (negb (tr =? 0)) j with
+                    | Some (n, bit) => VL [VZ n; VZ bit] | None => VPanic end
+               else VBad
+           | None => VBad end
+       | _ => VBad end;
+     op_spec := fun_spec (fun a => match a with
+       | [ws; VZ a; VZ b; VZ tr; VZ j] => match as_zs ws with
+           | Some ws => let (n, bit) := spec_SliceRank ws a j in VL [VZ n; VZ bit]
+           | None => VBad end
+       | _ => VBad end) |};
+  {| op_name := "bitmap.Slice/NextOne";
+     op_run := fun a => match a with
+       | [ws; VZ a; VZ b; VZ j] => match as_zs ws with
+           | Some ws =>
+               if words_okb ws && slice_dom ws a b && (0 <=? j) && (j <? b - a)
+               then vopt_z (SliceNextOne ws a b j) else VBad
+           | None => VBad end
+       | _ => VBad end;
+     op_spec := fun_spec (fun a => match a with
+       | [ws; VZ a; VZ b; VZ j] => match as_zs ws with
+           | Some ws => VZ (spec_SliceNext ws a b j)
+           | None => VBad end
+       | _ => VBad end) |};
+  {| op_name := "bitmap.Slice/PrevOne";
+     op_run := fun a => match a with
+       | [ws; VZ a; VZ b; VZ j] => match as_zs ws with
+           | Some ws =>
+               if words_okb ws && slice_dom ws a b && (0 <=? j) && (j <? b - a)
+               then vopt_z (SlicePrevOne ws a b j) else VBad
+           | None => VBad end
+       | _ => VBad end;
+     op_spec := fun_spec (fun a => match a with
+       | [ws; VZ a; VZ b; VZ j] => match as_zs ws with
+           | Some ws => VZ (spec_SlicePrev ws a b j)
+           | None => VBad end
+       | _ => VBad end) |};
   {| op_name := "bitmap.Fmt";
      op_run := fun a => match a with
        | [VZ kind; VZ sl; vals] => match as_zs vals with
